@@ -1,7 +1,154 @@
+import ElvisVerif.Model.TcpSys
 import Driver.Common
-/-! Line-protocol handlers for C01 (sub-commands `c01` / `c01-*`). -/
-namespace Driver.C01
+/-!
+Line protocol of the two-endpoint TCP system (sub-commands `c01*`, also used by `c03*`,
+`c12-run*`, `c17*`): one op per line, one answer per line = the op's result, then the canonical
+dump of the addressed side (everything `Tcb::verif_snapshot` shows).
 
-def dispatch (_sub : String) (_i _o : IO.FS.Stream) : Option (IO Unit) := none
+Ops (numbers decimal, side `A` or `B`):
+`open X iss mtu` · `listen X iss mtu` · `write X len seed` · `writehex X hex` · `read X` ·
+`tick X ms` · `emit X` · `deliver X i` · `inject X ctl seq ack wnd len seed` ·
+`injecthex X ctl seq ack wnd hex` · `close X` ·
+`abort X` · `drop X`.
+
+Large byte strings are printed as `len:fnv1a64`; in the state dump buffers longer than 64 bytes
+are hashed over their first and last 32 bytes only (results — `read`, emitted segments — are
+always hashed in full); lists longer than 6 entries print their length, an order-sensitive
+checksum and the first and last three entries.
+-/
+namespace Driver.C01
+open Elvis.Tcp
+
+def fnv (bs : List UInt8) : UInt64 :=
+  bs.foldl (fun h b => (h ^^^ b.toUInt64) * 0x100000001b3) 0xcbf29ce484222325
+
+def hex16 (h : UInt64) : String :=
+  String.ofList ((List.range 16).map fun i => Driver.hexDigit ((h >>> (UInt64.ofNat (60 - 4 * i))).toNat % 16))
+
+def full (bs : List UInt8) : String := s!"{bs.length}:{hex16 (fnv bs)}"
+
+def cheap (bs : List UInt8) : String :=
+  let n := bs.length
+  if n ≤ 64 then full bs else s!"{n}:{hex16 (fnv (bs.take 32 ++ bs.drop (n - 32)))}"
+
+/-- payload generator shared with the harness: LCG `x := x*1103515245 + 12345 (mod 2^32)`,
+    byte = bits 16..23 -/
+def genBytes (len seed : Nat) : List UInt8 :=
+  let rec go : Nat → UInt32 → List UInt8 → List UInt8
+    | 0, _, acc => acc.reverse
+    | n + 1, x, acc =>
+      let x := x * 1103515245 + 12345
+      go n x ((x >>> 16).toUInt8 :: acc)
+  go len (UInt32.ofNat seed) []
+
+def hdrStr (h : Hdr) : String :=
+  s!"{h.srcPort.toNat}.{h.dstPort.toNat}.{h.seq.toNat}.{h.ack.toNat}.{h.dataOffset.toNat}.{h.ctl.toNat}.{h.wnd.toNat}.{h.urg.toNat}.{h.checksum.toNat}"
+
+/-- `[e1,e2,…]`, abbreviated beyond six entries; `w` = per-entry weight for the checksum -/
+def listStr {α : Type} (xs : List α) (f : α → String) (w : α → Nat) : String :=
+  let n := xs.length
+  if n ≤ 6 then "[" ++ ",".intercalate (xs.map f) ++ "]"
+  else
+    let agg := (xs.foldl (fun (acc : Nat × Nat) x => (acc.1 + 1, (acc.2 + (acc.1 + 1) * w x) % 4294967296)) (0, 0)).2
+    "[n=" ++ toString n ++ " agg=" ++ toString agg ++ " " ++ ",".intercalate ((xs.take 3).map f) ++ ",..," ++
+      ",".intercalate ((xs.drop (n - 3)).map f) ++ "]"
+
+def segWeight (s : Segment) : Nat := s.hdr.seq.toNat + s.hdr.ack.toNat + s.hdr.ctl.toNat + s.text.length
+
+def emittedStr (segs : List Segment) : String :=
+  let hx := segs.foldl (fun (h : UInt64) s => h ^^^ fnv s.text) 0
+  listStr segs (fun s => s!"{hdrStr s.hdr}/{full s.text}") segWeight ++ s!" hx={hex16 hx}"
+
+def stateStr : State → String
+  | .SynSent => "SynSent" | .SynReceived => "SynReceived" | .Established => "Established"
+  | .FinWait1 => "FinWait1" | .FinWait2 => "FinWait2" | .CloseWait => "CloseWait"
+  | .Closing => "Closing" | .LastAck => "LastAck" | .TimeWait => "TimeWait"
+
+def tcbStr (t : Tcb) : String :=
+  let init := match t.initiation with | .Listen => "L" | .Open => "O"
+  let rtx := listStr t.outgoing.retransmit
+    (fun x => s!"{hdrStr x.segment.hdr}/{cheap x.segment.text}/{if x.needsTransmit then 1 else 0}")
+    (fun x => segWeight x.segment + (if x.needsTransmit then 1 else 0))
+  let one := listStr t.outgoing.oneshot hdrStr (fun h => h.seq.toNat + h.ack.toNat + h.ctl.toNat)
+  let heap := listStr t.incoming.segments (fun s => s!"{hdrStr s.hdr}/{cheap s.text}") segWeight
+  let tw := match t.timeouts.timeWait with | none => "-" | some v => toString v
+  s!"st={stateStr t.state} init={init} mtu={t.mtu.toNat} " ++
+  s!"snd={t.snd.una.toNat},{t.snd.nxt.toNat},{t.snd.wnd.toNat},{t.snd.wl1.toNat},{t.snd.wl2.toNat},{t.snd.iss.toNat} " ++
+  s!"rcv={t.rcv.irs.toNat},{t.rcv.nxt.toNat},{t.rcv.wnd.toNat} ot={cheap t.outgoing.text} rtx={rtx} one={one} " ++
+  s!"heap={heap} it={cheap t.incoming.text} rto={t.timeouts.retransmission} tw={tw}"
+
+def sideStr (sd : Side) : String :=
+  match sd.tcb, sd.listen with
+  | some t, _ => tcbStr t
+  | none, some (iss, mtu) => s!"listen({iss.toNat},{mtu.toNat})"
+  | none, none => "none"
+
+def resStr : Res → String
+  | .ok => "ok"
+  | .noTcb => "notcb"
+  | .noSeg => "noseg"
+  | .read bytes => s!"read {full bytes}"
+  | .tick .Ignore => "ignore"
+  | .tick .CloseConnection => "close"
+  | .emitted first segs => s!"emit {first} {emittedStr segs}"
+  | .arrived .Ok => "ok"
+  | .arrived .Close => "close"
+  | .listenTcb => "tcb"
+  | .response i h => s!"response {i} {hdrStr h}"
+  | .nothing => "none"
+  | .closed .Ok => "ok"
+  | .closed .ConnectionClosing => "closing"
+  | .closed .CloseConnection => "closeconn"
+
+def parseSide : String → Option SideId
+  | "A" => some .A
+  | "B" => some .B
+  | _ => none
+
+def seqOf (n : Nat) : Seq := BitVec.ofNat 32 n
+def u16Of (n : Nat) : U16 := BitVec.ofNat 16 n
+
+def parseOp : List String → Option Op
+  | ["open", x, iss, mtu] => do pure (.open (← parseSide x) (seqOf (← iss.toNat?)) (u16Of (← mtu.toNat?)))
+  | ["listen", x, iss, mtu] => do pure (.listen (← parseSide x) (seqOf (← iss.toNat?)) (u16Of (← mtu.toNat?)))
+  | ["write", x, len, seed] => do pure (.write (← parseSide x) (genBytes (← len.toNat?) (← seed.toNat?)))
+  | ["writehex", x, h] => do pure (.write (← parseSide x) (← Driver.parseHex h))
+  | ["read", x] => do pure (.read (← parseSide x))
+  | ["tick", x, ms] => do pure (.tick (← parseSide x) (← ms.toNat?))
+  | ["emit", x] => do pure (.emit (← parseSide x))
+  | ["deliver", x, i] => do pure (.deliver (← parseSide x) (← i.toNat?))
+  | ["inject", x, ctl, seq, ack, wnd, len, seed] => do
+    let sd ← parseSide x
+    pure (.inject sd (forge sd ((← ctl.toNat?) % 64) (← seq.toNat?) (← ack.toNat?) (← wnd.toNat?)
+      (genBytes (← len.toNat?) (← seed.toNat?))))
+  | ["injecthex", x, ctl, seq, ack, wnd, h] => do
+    let sd ← parseSide x
+    pure (.inject sd (forge sd ((← ctl.toNat?) % 64) (← seq.toNat?) (← ack.toNat?) (← wnd.toNat?)
+      (← Driver.parseHex h)))
+  | ["close", x] => do pure (.close (← parseSide x))
+  | ["abort", x] => do pure (.abort (← parseSide x))
+  | ["drop", x] => do pure (.drop (← parseSide x))
+  | _ => none
+
+structure St where
+  sys : Sys := {}
+  dead : Bool := false
+
+def step (st : St) (ws : List String) : St × String :=
+  match ws with
+  | ["case", id] => ({}, s!"case {id}")
+  | _ =>
+    if st.dead then (st, "dead") else
+    match parseOp ws with
+    | none => (st, "bad-op")
+    | some op =>
+      let x := op.side
+      let name := match x with | .A => "A" | .B => "B"
+      match st.sys.step op with
+      | .ok (sys, r) => ({ st with sys := sys }, s!"{resStr r} | {name} {sideStr (sys.side x)}")
+      | .error e => ({ st with dead := true }, s!"err {e}")
+
+def dispatch (sub : String) (i o : IO.FS.Stream) : Option (IO Unit) :=
+  if sub.startsWith "c01" then some (Driver.loop i o step {}) else none
 
 end Driver.C01
